@@ -60,7 +60,8 @@ func c15Spec(n int) world.Spec {
 		tk := c15Tok(i)
 		sp := world.SPSpec{
 			AppID: "app-" + tk, EntityID: "https://sp" + tk + ".example/metadata", AuthnRequestsSigned: A, KeyNames: []string{world.RSAKeyNames[i%len(world.RSAKeyNames)]},
-			ACS: []world.ACSSpec{acs(world.BindPost, "https://sp"+tk+".example/acs/post", "1", A), acs(world.BindRedirect, "https://sp"+tk+".example/acs/redirect", "2", A)},
+			// not in index order, two entries of one binding: document order and index order disagree
+			ACS: []world.ACSSpec{acs(world.BindPost, "https://sp"+tk+".example/acs/post-first", "5", A), acs(world.BindRedirect, "https://sp"+tk+".example/acs/redirect", "2", A), acs(world.BindPost, "https://sp"+tk+".example/acs/post", "1", A)},
 			SLO: []world.SLOSpec{{Binding: world.BindPost, Location: "https://sp" + tk + ".example/slo"}},
 		}
 		spec.SPs = append(spec.SPs, sp)
@@ -153,8 +154,13 @@ func c15Client(w *world.World, spec world.Spec, i int, ops []string, yield int, 
 		case "sso", "flow-post", "flow-redirect":
 			a := spsim.NewAuthnReq(reqID, sp.EntityID)
 			a.Destination = spec.IdP.Advertised("sso", host)
-			if op == "flow-redirect" {
+			switch {
+			case op == "flow-redirect":
 				a.ProtocolBinding = world.BindRedirect
+			case k%3 == 1:
+				a.ProtocolBinding = world.BindPost
+			case k%3 == 2:
+				a.ProtocolBinding = "urn:example:unlisted"
 			}
 			binding := []string{"post", "redirect"}[k%2]
 			hr, _, _ := spsim.Encode(spec.IdP.Route("sso"), wr(a.Tree(plainStyle)), spsim.Transport{Binding: binding, Plus: true, Encoding: A, RelayState: relay}, nil)
@@ -168,6 +174,14 @@ func c15Client(w *world.World, spec world.Spec, i int, ops []string, yield int, 
 			stored := w.Store.Request(id)
 			if stored == nil {
 				cc.add(ev.V("C15/login-redirect-unknown-id", "client %d: redirected to %q, no such stored request", i, loc))
+				continue
+			}
+			wantACS := refSelect(sp, a.ProtocolBinding)
+			if a.ProtocolBinding == A {
+				wantACS = refSelect(sp, "")
+			}
+			if len(wantACS) == 0 || stored.S.ACS != wantACS[0].Location || stored.S.Binding != wantACS[0].Binding {
+				cc.add(ev.V("C15/consumer-endpoint-depends-on-history", "client %d: request %s (ProtocolBinding %q) persisted with (%q, %q); the registration says %v", i, reqID, a.ProtocolBinding, stored.S.ACS, stored.S.Binding, wantACS))
 				continue
 			}
 			if stored.S.AppID != sp.AppID || stored.S.RelayState != relay || stored.S.AuthRequestID != reqID || !strings.Contains(stored.S.ACS, tk) {
